@@ -5,7 +5,8 @@ Re-extracted from /repo's *current* sources on every run:
 * the names the code tests for (`StopEvent.__name__` in `_is_terminal_event`,
   `InternalDispatchEvent.__name__` in `_resolve_event_stream`), resolved through the
   module's imports, and `TERMINAL_STATUSES`;
-* a *statement skeleton* of every function the EventLog model transcribes: the
+* a *statement skeleton* of every function the EventLog model transcribes (of
+  `_stream_events` only the cursor resolution and the frame formats): the
   function body in source order with docstrings dropped, every top-level local that is
   assigned exactly once substituted by its definition (so renaming such a local or
   reordering independent assignments leaves the skeleton unchanged), the remaining
@@ -40,8 +41,11 @@ TARGETS = [
     ("sqlQuery", SQLITE, "SqliteWorkflowStore", "query_events"),
     ("sqlSubscribe", SQLITE, "SqliteWorkflowStore", "subscribe_events"),
     ("apiResolve", API, "_WorkflowAPI", "_resolve_event_stream"),
-    ("apiStream", API, "_WorkflowAPI", "_stream_events"),
+    ("apiCursor", API, "_WorkflowAPI", "_stream_events"),
 ]
+# of `_stream_events` only the cursor resolution (everything before the nested stream formatter) and the frame
+# formats are pinned: the queue/feeder/heartbeat machinery and the payload encoding are not part of M3
+CURSOR_ONLY = {"apiCursor"}
 
 
 def lean_str(s: str) -> str:
@@ -107,8 +111,42 @@ def _strip_doc(body: list[ast.stmt]) -> list[ast.stmt]:
     return body
 
 
-def skeleton(fn: ast.AST) -> list[str]:
+def frame_formats(fn: ast.AST) -> list[str]:
+    """the f-strings the nested stream formatter yields, interpolated names numbered by first appearance"""
+    res: list[str] = []
+    for n in ast.walk(fn):
+        if isinstance(n, ast.Yield) and isinstance(n.value, ast.JoinedStr):
+            parts = []
+            seen: list[str] = []
+            for v in n.value.values:
+                if isinstance(v, ast.Constant):
+                    parts.append(str(v.value))
+                elif isinstance(v, ast.FormattedValue) and isinstance(v.value, ast.Name):
+                    if v.value.id not in seen:
+                        seen.append(v.value.id)
+                    parts.append("{" + str(seen.index(v.value.id)) + "}")
+                else:
+                    parts.append("{?}")
+            res.append("".join(parts))
+    return res
+
+
+def skeleton(fn: ast.AST, cursor_only: bool = False) -> list[str]:
     fn = copy.deepcopy(fn)
+    if cursor_only:
+        body = []
+        for st in fn.body:
+            if isinstance(st, (ast.FunctionDef, ast.AsyncFunctionDef)):
+                break
+            body.append(st)
+        # statements that only prepare the response (media type, heartbeat) are not cursor logic
+        keep = []
+        for st in body:
+            names = {n.id for n in ast.walk(st) if isinstance(n, ast.Name)}
+            if isinstance(st, ast.Assign) and names & {"media_type", "heartbeat_interval"}:
+                continue
+            keep.append(st)
+        fn.body = keep
     # drop docstrings and annotations everywhere (nested defs too)
     for n in ast.walk(fn):
         if isinstance(n, (ast.FunctionDef, ast.AsyncFunctionDef)):
@@ -245,12 +283,18 @@ def generate(notes: list[str]) -> list[str]:
             lines = ["<missing>"]
         else:
             try:
-                lines = skeleton(f)
+                lines = skeleton(f, cursor_only=name in CURSOR_ONLY)
             except Exception as e:  # noqa: BLE001
                 notes.append(f"gen/eventlog: skeleton of {cls}.{fn} failed: {e!r}")
                 lines = ["<missing>"]
         L.append(f"def {name} : List String := [")
         L += ["  " + lean_str(l) + ("," if i + 1 < len(lines) else "") for i, l in enumerate(lines)]
         L.append("]")
+    f = find_func(trees[API], "_WorkflowAPI", "_stream_events")
+    frames = frame_formats(f) if f is not None else ["<missing>"]
+    if not frames:
+        notes.append("gen/eventlog: no yielded f-string found in _stream_events")
+        frames = ["<missing>"]
+    L.append("def apiFrames : List String := [" + ", ".join(lean_str(x) for x in frames) + "]")
     L += ["", "end Gen.EventLog"]
     return L
